@@ -18,7 +18,7 @@ RULE = ("lines from two points (coordinates <= 1e3, >= 1e-3 apart), from point +
         "geometry of the defining data (point-line distance, orthogonal projection, transformed points, constructed ground "
         "truth for predicates) with residuals <= 1e-9 x data magnitude; predicates that take a tolerance are given one scaled "
         "to the data. Non-trivial: line not through the origin, direction not unit, not axis-aligned.")
-RULE = RULE + probes.RULE_TEXT
+RULE = RULE + probes.RULE_TEXT + probes.VARIANT_TEXT
 ASSUMPTIONS = ["the intersection predicate ^ / intersects() is not in the statement and is not judged",
                "'different' lines differ by at least 5% of the scale so that no predicate is asked a borderline question",
                "library convention: moment v = w x p for a point p of the line, plane n.x + d = 0"]
@@ -47,7 +47,7 @@ def s_pair():
 
 
 def check_case(case):
-    if case.get("kind") in ("hist", "aug"):
+    if case.get("kind") in ("hist", "aug", "variant"):
         return probes.run(case, PROPERTY_ID)
     return {"line": _line, "pair": _pair}[case["kind"]](case)
 
@@ -315,7 +315,7 @@ def _pair(case):
 
 
 def classify(case):
-    if case.get("kind") in ("hist", "aug"):
+    if case.get("kind") in ("hist", "aug", "variant"):
         return probes.classify(case)
     if case["kind"] == "line":
         p, w = case["p"], case["w"]
